@@ -10,7 +10,7 @@ shutil.copy(f"{src}/demo{k}.rs", f"{dst}/demo.rs")
 if os.path.exists(f"{src}/notes{k}.md"):
     shutil.copy(f"{src}/notes{k}.md", f"{dst}/notes.md")
 meta = {"property": pid, "needs_to_manifest": needs,
-        "confirmed": "scratch worktree of /repo HEAD: demo (tests/demo.rs) passes on the clean checkout; with patch.diff applied `cargo test --lib --offline` still reports 40 passed and the demo fails (/tmp/seed/confirm.sh)",
+        "confirmed": "scratch worktree of /repo HEAD: demo (tests/demo.rs) passes on the clean checkout; with patch.diff applied `cargo test --lib --offline` still reports 40 passed and the demo fails (/tmp/seed/confirm.sh: fresh worktree; `cargo test --offline --test demo` clean -> ok; patch applied -> `cargo test --workspace --no-fail-fast --offline` 40 unit + 82 doc tests ok; demo -> FAILED)",
         "origin": "written by an independent sub-agent that saw only the property text and its own worktree",
         "detected_by": None}
 json.dump(meta, open(f"{dst}/meta.json", "w"), indent=1)
